@@ -3,6 +3,7 @@
 to the world after.
 -/
 import Hfsm.Proofs.WorldRelTrav
+import Hfsm.Proofs.ApplyStep
 
 namespace Hfsm
 variable {U : Type} [UtilArith U]
@@ -17,6 +18,14 @@ theorem updateActivity (m : Mach U) : R m.w m.updateActivity.w := hR.refl _
 
 theorem applyRequest (m : Mach U) (t : Transition) (i : Nat) : R m.w (m.applyRequest t i).w := by
   trav Mach.applyRequest [hR.request _ _ _, hR.fwdActive _ _ _]
+
+theorem applyRequestNoPin (m : Mach U) (t : Transition) : R m.w (m.applyRequestNoPin t).w := by
+  trav Mach.applyRequestNoPin [hR.request _ _ _, hR.fwdActive _ _ _]
+
+theorem applyStep (m : Mach U) (x : Transition × Nat) : R m.w (Mach.applyStep m x).w := by
+  unfold Mach.applyStep; split
+  · exact hR.applyRequest m x.1 x.2
+  · exact hR.applyRequestNoPin m x.1
 
 theorem applyAll : (ts : List Transition) → (m : Mach U) → (i : Nat) → R m.w (m.applyAll ts i).w
   | [], m, i => by simp only [Mach.applyAll]; exact hR.refl _
@@ -102,9 +111,9 @@ theorem foldl_rel {α : Type} (hR : WRel R) (f : Mach U → α → Mach U) (hf :
   | x :: rest, m' => hR.trans (hf m' x) (foldl_rel hR f hf rest _)
 
 theorem applyRequests (m : Mach U) (ts : List Transition) : R m.w (m.applyRequests ts).1.w := by
-  simp only [Mach.applyRequests]
+  rw [Mach.applyRequests_fst]
   refine hR.trans (hR.freshControl m.w) ?_
-  exact foldl_rel hR _ (fun m (x : Transition × Nat) => hR.applyRequest m x.1 x.2) _
+  exact foldl_rel hR Mach.applyStep (fun m x => hR.applyStep m x) _
     { root := m.root, w := m.w.freshControl, structActive := m.structActive, activity := m.activity }
 
 theorem mach_replayTransitions (m : Mach U) (ts : List Transition) : R m.w (m.replayTransitions ts).1.w := by
